@@ -120,6 +120,7 @@ B2 == LV(<<BV(<<200>>), LV(<<A1>>)>>)
 R0 == LV(<<U8v(1), LV(<<LV(<<>>)>>)>>)
 R1 == LV(<<U8v(2), LV(<<LV(<<R0>>)>>)>>)
 R2 == LV(<<U8v(0), LV(<<LV(<<R0, R1>>)>>)>>)
+RecNames == {"RList", "RTree", "RA", "RB", "RArr"}
 RefVals(name) ==
   CASE name = "RList" -> {L1, L2, L3}
     [] name = "RTree" -> {T0, T1, T2}
@@ -143,7 +144,7 @@ Def(T) ==
     [] T.t = "ptr" -> Def(T.of)
     [] T.t = "iface" -> BV(<<9>>)
     [] T.t = "raw" -> [k |-> "r", b |-> <<193, 128>>]
-    [] T.t = "ref" -> RefDef(T.name)
+    [] T.t = "ref" -> IF T.name \in RecNames THEN RefDef(T.name) ELSE Def(TypeOf[T.name])
 (* a few representatives, used in nested positions *)
 Few(T) ==
   CASE T.t = "uint" -> {UV(Fix8(<<>>)), UV(Fix8(<<128>>))} \cup (IF T.w >= 16 THEN {UV(Fix8(<<1, 0>>))} ELSE {})
@@ -157,7 +158,7 @@ Few(T) ==
     [] T.t = "ptr" -> (IF T.nilok \/ T.of.t \in {"uint", "big", "bytes"} THEN {Z} ELSE {}) \cup {Def(T.of)}
     [] T.t = "iface" -> {BV(<<>>), LV(<<BV(<<1>>)>>)}
     [] T.t = "raw" -> {[k |-> "r", b |-> <<128>>], [k |-> "r", b |-> <<193, 128>>]}
-    [] T.t = "ref" -> {RefDef(T.name)}
+    [] T.t = "ref" -> IF T.name \in RecNames THEN {RefDef(T.name)} ELSE {Def(TypeOf[T.name])}
 (* the boundary values of a type *)
 Vals(T) ==
   CASE T.t = "uint" -> {UV(Fix8(b)) : b \in {x \in UintBytes : Len(x) <= T.w \div 8}}
@@ -176,7 +177,7 @@ Vals(T) ==
     [] T.t = "ptr" -> (IF T.nilok \/ T.of.t \in {"uint", "big", "bytes"} THEN {Z} ELSE {}) \cup Vals(T.of)
     [] T.t = "iface" -> {Z} \cup {IfaceVal(x) : x \in SmallItems}
     [] T.t = "raw" -> {[k |-> "r", b |-> Enc(x)] : x \in SmallItems}
-    [] T.t = "ref" -> RefVals(T.name)
+    [] T.t = "ref" -> IF T.name \in RecNames THEN RefVals(T.name) ELSE Few(TypeOf[T.name])
 
 (* encode sequences: a value whose encoding fails after output was produced (a negative
    integer behind an encodable field of a struct), directly followed by an ordinary value;
